@@ -97,7 +97,8 @@ def run(tier):
     shutil.rmtree(sc, ignore_errors=True)
     return c.finish(
         rule="behaviours = TLC simulation of Codec.tla (stream choice, chunking, calls) replayed on the real "
-             "MessageBufReader with 1 and 128 bytes per cell + every base-128 digit pattern of length 1..10 on the "
+             "MessageBufReader with 1 and 128 bytes per cell, and each stream also written to a file and read back through the "
+             "real FileMessageReader (read_next until the end, read_to_end count) + every base-128 digit pattern of length 1..10 on the "
              "real varint functions + seeded native-length traces validated by TLC against the abstract contract; "
              "non-trivial = at least one record handed out; distinct by content hash",
         checker_cmd="tools/vcheck C20 --tier %s" % tier)
